@@ -222,9 +222,9 @@ macro_rules! driver_unit {
 }
 
 // (two or more frames exhaust CBMC's memory - the growth of Vec<Frame> -; any number of frames: Verus unit `driver`)
-//@ unit name=c04_driver_empty heavy=1 props=C04,C02,C03 tier=quick kind=bounded timeout=1500 funcs="coding::encode_with_fixed_block_size; Stream::new; StreamInfo::set_block_sizes; StreamInfo::set_total_samples; StreamInfo::set_md5_digest" stubs="encode_fixed_size_frame -> some frame with the given number and the filled block size (recording both); <Context as Fill>::fill_interleaved -> counters only; <FrameBuf as Fill>::fill_interleaved -> filled size only (c17_fill_interleaved_*); Context::new -> zero counters; Context::md5_digest -> marker; par driver -> must not be called" bound="block size 48, empty input with a length hint"
-//@ unit name=c04_driver_short heavy=1 props=C04,C02,C03 tier=quick kind=bounded timeout=1500 funcs="coding::encode_with_fixed_block_size; Stream::add_frame; StreamInfo::update_frame_info; FrameBuf::fill_interleaved" stubs="as c04_driver_empty" bound="block size 48, input of 1 sample (shorter than one block) with a length hint"
-//@ unit name=c04_driver_one_block heavy=1 props=C04,C02,C03 tier=quick kind=bounded timeout=1500 funcs="coding::encode_with_fixed_block_size; Stream::add_frame; StreamInfo::update_frame_info" stubs="as c04_driver_empty" bound="block size 48, input of exactly 48 samples (one full block, then the terminating empty read) without a length hint"
+//@ unit name=c04_driver_empty heavy=1 props=C04 tier=quick kind=bounded timeout=1500 funcs="coding::encode_with_fixed_block_size; Stream::new; StreamInfo::set_block_sizes; StreamInfo::set_total_samples; StreamInfo::set_md5_digest" stubs="encode_fixed_size_frame -> some frame with the given number and the filled block size (recording both); <Context as Fill>::fill_interleaved -> counters only; <FrameBuf as Fill>::fill_interleaved -> filled size only (c17_fill_interleaved_*); Context::new -> zero counters; Context::md5_digest -> marker; par driver -> must not be called" bound="block size 48, empty input with a length hint"
+//@ unit name=c04_driver_short heavy=1 props=C04 tier=quick kind=bounded timeout=1500 funcs="coding::encode_with_fixed_block_size; Stream::add_frame; StreamInfo::update_frame_info; FrameBuf::fill_interleaved" stubs="as c04_driver_empty" bound="block size 48, input of 1 sample (shorter than one block) with a length hint"
+//@ unit name=c04_driver_one_block heavy=1 props=C04 tier=thorough kind=bounded timeout=1500 funcs="coding::encode_with_fixed_block_size; Stream::add_frame; StreamInfo::update_frame_info" stubs="as c04_driver_empty" bound="block size 48, input of exactly 48 samples (one full block, then the terminating empty read) without a length hint"
 driver_unit!(c04_driver_empty, 0, true);
 driver_unit!(c04_driver_short, 1, true);
 driver_unit!(c04_driver_one_block, 48, false);
